@@ -17,6 +17,12 @@ def conv1dSpec (d : Bool) (C K : Nat) (cin groups : Rat) (out : List Rat) (bias 
     in_channels := cin, out_channels := outEff d C α, in_features := cin, out_features := outEff d C α,
     groups := groups, kernel_size := [kEff d K β γ], output_shape := out, hasBias := bias }
 
+/-- description of the seed Conv1d itself (static sizes) -/
+def conv1dSeedSpec (C K : Nat) (cin groups : Rat) (out : List Rat) (bias : Bool) : LSpec Rat :=
+  { LSpec.empty with
+    in_channels := cin, out_channels := (C : Rat), in_features := cin, out_features := (C : Rat),
+    groups := groups, kernel_size := [(K : Rat)], output_shape := out, hasBias := bias }
+
 /-- description of a PITConv2d (only the channel mask is searched; static `kx × ky` kernel) -/
 def conv2dSpec (d : Bool) (C : Nat) (cin groups kx ky : Rat) (out : List Rat) (bias : Bool)
     (α : Nat → Rat) : LSpec Rat :=
@@ -67,5 +73,27 @@ def outEffD (discrete : Bool) (C : Nat) (α : Nat → Dual) : Dual :=
 /-- `∂ out_features_eff / ∂ alpha[i]` as autograd computes it -/
 def dOutEff (discrete : Bool) (C : Nat) (α : Nat → Rat) (i : Nat) : Rat :=
   (outEffD discrete C (seedAt α i)).d
+
+/-! ### `k_eff` in the Dual reading -/
+
+def kaD (n : Nat) (v : Nat → Dual) (i : Nat) : Dual := if i + 1 = n then Dual.const 1 else Dual.abs (v i)
+
+def thetaBetaD (K : Nat) (β : Nat → Dual) (j : Nat) : Dual := Dual.sum ((List.range (j + 1)).map (kaD K β))
+
+def thetaGammaD (K L : Nat) (γ : Nat → Dual) (j : Nat) : Dual :=
+  Dual.sum ((List.range L).map fun i => if (K - 1 - j) % 2 ^ i = 0 then kaD L γ i else Dual.const 0)
+
+/-- `k_eff`: discrete = sum of the product of the two binarised masks (straight-through),
+continuous = sum of the product of the two normalised masks -/
+def kEffD (discrete : Bool) (K : Nat) (β γ : Nat → Dual) : Dual :=
+  Dual.sum ((List.range K).map fun j =>
+    if discrete then
+      Dual.mul (Dual.binSTE (thetaGammaD K (gammaLen K) γ j)) (Dual.binSTE (thetaBetaD K β j))
+    else
+      Dual.mul (Dual.mul (thetaGammaD K (gammaLen K) γ j) (Dual.const (gammaNorm K (gammaLen K) j)))
+        (Dual.mul (thetaBetaD K β j) (Dual.const (betaNorm j))))
+
+/-- a parameter vector with no derivative seeded -/
+def noSeed (v : Nat → Rat) (c : Nat) : Dual := ⟨v c, 0⟩
 
 end PlinioVerif.PIT
